@@ -511,8 +511,26 @@ def deleted_observed(ctx, esc, rule):
             subj = src(x.args[0])
             # inside an exception handler that undoes a registration made by the same event: no kernel SAs yet
             if any(part == 'handler' for (_, part, _) in n.try_ctx):
-                ctx.ok(rule, 'removal of `%s` in an exception handler undoes a registration of the same event' % subj,
-                       ctx.site(fi, x))
+                # accepted only as the undo of a registration made by this very event: every feasible path from the entry to
+                # the removal has appended that element to the table before
+                from ..cfg import path_facts, fmt_path
+                badp = None
+                npaths = 0
+                for path in g.paths(stop=lambda m, n=n: m is n):
+                    if path[-1][0] is not n:
+                        continue
+                    if path_facts(path) is None:
+                        continue
+                    npaths += 1
+                    appended = any(isinstance(y, ast.Call) and isinstance(y.func, ast.Attribute) and y.func.attr == 'append'
+                                   and src(y.func.value).endswith('ike_sas') and y.args and src(y.args[0]) == subj
+                                   for m, lab in path[:-1] for e in m.exprs() if e is not None for y in walk_no_nested(e))
+                    if not appended:
+                        badp = path
+                        break
+                ctx.check(badp is None and npaths > 0, rule, 'removal of `%s` in an exception handler only undoes a registration made by '
+                          'the same event (%d paths)' % (subj, npaths), key=(rule, fi.qual, 'handler-removes-foreign-entry', subj),
+                          site=ctx.site(fi, x), detail={'path': fmt_path(badp) if badp else None})
                 continue
             dele = [d for d, y in nodes_calling(ctx, fi, g, calls_named('delete_child_sas'))
                     if src(y.func.value) == subj]
